@@ -33,15 +33,15 @@ func wrapperFields(c *Ctx) []wrapperField {
 			if !ok {
 				continue
 			}
-			if c.fn(rel+"."+n+".Close") == nil {
+			if c.fn(rel+"."+canonTypeName(rel, n)+".Close") == nil {
 				continue
 			}
 			for i := 0; i < st.NumFields(); i++ {
 				ft := st.Field(i).Type()
 				if streamKind(ft) == 2 {
-					out = append(out, wrapperField{rel, n, st.Field(i).Name(), true})
+					out = append(out, wrapperField{rel, canonTypeName(rel, n), canonField(tn.Type(), st.Field(i).Name()), true})
 				} else if isStreamNamed(ft) {
-					out = append(out, wrapperField{rel, n, st.Field(i).Name(), false})
+					out = append(out, wrapperField{rel, canonTypeName(rel, n), canonField(tn.Type(), st.Field(i).Name()), false})
 				}
 			}
 		}
